@@ -182,48 +182,57 @@ theorem subsliceArr_ok_iff {α : Type} (xs : List α) (i e : Nat) (hi : i ≤ xs
   · rw [usizeSub_err _ _ h]
     simp [bind, Except.bind, h]
 
-/-- descending numbers: no step can underflow when `end - inc` still fits -/
-theorem descFrom_ok (n e inc : Int) (h : 0 < inc) (hg : -9223372036854775808 ≤ e - inc) (hn : e ≤ n)
-    (hmax : n ≤ 9223372036854775807) : ∃ r, descFrom n e inc = .ok r := by
+theorem stepOf_pos (inc : Int) : 0 < stepOf inc := by unfold stepOf; omega
+
+theorem ascFrom_mem (n e : Int) (inc : Nat) (w : Int) (h : w ∈ ascFrom n e inc) : n ≤ w ∧ w ≤ e := by
+  fun_induction ascFrom n e inc with
+  | case1 n hc ih =>
+    rcases List.mem_cons.mp h with h | h
+    · subst h; omega
+    · have := ih h; omega
+  | case2 n hc => cases h
+
+theorem ascFrom_head (n e : Int) (inc : Nat) (hi : 0 < inc) (hn : n ≤ e) :
+    ascFrom n e inc = n :: ascFrom (n + inc) e inc := by
+  rw [ascFrom, dif_pos ⟨hi, hn⟩]
+
+theorem descFrom_mem (n e : Int) (inc : Nat) (w : Int) (h : w ∈ descFrom n e inc) :
+    e ≤ w ∧ w < n ∧ inI64 w = true := by
   fun_induction descFrom n e inc with
-  | case1 n hpos hin hge rest hrest ih => exact ⟨_, rfl⟩
-  | case2 n hpos hin hge err herr ih =>
-    obtain ⟨r, hr⟩ := ih hge (by omega)
-    rw [hr] at herr; cases herr
-  | case3 n hpos hin hge => exact ⟨[], rfl⟩
-  | case4 n hpos hin =>
-    exfalso
-    have : inI64 (n - inc) = true := (inI64_iff _).mpr (by omega)
-    exact hin this
-  | case5 n hpos => exact absurd h hpos
+  | case1 n hc ih =>
+    rcases List.mem_cons.mp h with h | h
+    · subst h; exact ⟨hc.2.2, by omega, hc.2.1⟩
+    · have := ih h; exact ⟨this.1, by omega, this.2.2⟩
+  | case2 n hc => cases h
 
-theorem descFrom_overflow (n e inc : Int) (h : 0 < inc) (hov : inI64 (n - inc) = false) :
-    descFrom n e inc = .error .subOverflow := by
-  rw [descFrom]; simp [h, hov]
+theorem descFrom_stop (n e : Int) (inc : Nat) (h : ¬ (0 < inc ∧ inI64 (n - inc) = true ∧ n - inc ≥ e)) :
+    descFrom n e inc = [] := by
+  rw [descFrom, dif_neg h]
 
-theorem descFrom_step (n e inc : Int) (h : 0 < inc) (hin : inI64 (n - inc) = true) (hge : n - inc ≥ e)
-    (herr : descFrom (n - inc) e inc = .error .subOverflow) : descFrom n e inc = .error .subOverflow := by
-  rw [descFrom]; simp [h, hin, hge, herr]
+theorem descFrom_step (n e : Int) (inc : Nat) (h : 0 < inc ∧ inI64 (n - inc) = true ∧ n - inc ≥ e) :
+    descFrom n e inc = (n - inc) :: descFrom (n - inc) e inc := by
+  rw [descFrom, dif_pos h]
 
-/-- descending characters: no step can underflow when the step is at most the end's code point -/
-theorem descChars_ok (c e inc : Nat) (h : 0 < inc) (hg : inc ≤ e) (hc : e ≤ c) :
-    ∃ r, descChars c e inc = .ok r := by
+theorem ascChars_mem (c e inc w : Nat) (h : w ∈ ascChars c e inc) : c ≤ w ∧ w ≤ e := by
+  fun_induction ascChars c e inc with
+  | case1 c hc ih =>
+    rcases List.mem_cons.mp h with h | h
+    · subst h; omega
+    · have := ih h; omega
+  | case2 c hc => cases h
+
+theorem descChars_mem (c e inc w : Nat) (h : w ∈ descChars c e inc) :
+    e ≤ w ∧ w < c ∧ isScalarValue w = true := by
   fun_induction descChars c e inc with
-  | case1 c hpos hsub hcond rest hrest ih => exact ⟨_, rfl⟩
-  | case2 c hpos hsub hcond err herr ih =>
-    have : c - inc ≥ e := by simp at hcond; exact hcond.2
-    obtain ⟨r, hr⟩ := ih this
-    rw [hr] at herr; cases herr
-  | case3 c hpos hsub hcond => exact ⟨[], rfl⟩
-  | case4 c hpos hsub => exfalso; omega
-  | case5 c hpos => exact absurd h hpos
+  | case1 c hc ih =>
+    rcases List.mem_cons.mp h with h | h
+    · subst h; exact ⟨hc.2.2.2, by omega, hc.2.2.1⟩
+    · have := ih h; exact ⟨this.1, by omega, this.2.2⟩
+  | case2 c hc => cases h
 
-theorem descChars_underflow (c e inc : Nat) (h : 0 < inc) (hov : ¬ inc ≤ c) :
-    descChars c e inc = .error .subOverflow := by
-  rw [descChars]; simp [h, hov]
-
-theorem descChars_hang (c e : Nat) : descChars c e 0 = .error .hang := by
-  rw [descChars]; simp
+theorem descChars_stop (c e inc : Nat) (h : ¬ (0 < inc ∧ inc ≤ c ∧ isScalarValue (c - inc) = true ∧ c - inc ≥ e)) :
+    descChars c e inc = [] := by
+  rw [descChars, dif_neg h]
 
 theorem decr_ok (fl : Flow) : ∃ fl', decr fl = .ok fl' := by
   cases fl with
